@@ -274,7 +274,21 @@ func genParserInput(t *rapid.T, ep string) ParserInput {
 			lines := strings.SplitAfter(v, "\n")
 			for i := rapid.IntRange(1, 3).Draw(t, "lm"); i > 0 && len(lines) > 0; i-- {
 				p := rapid.IntRange(0, len(lines)-1).Draw(t, "lp")
-				switch rapid.IntRange(0, 3).Draw(t, "lop") {
+				switch rapid.IntRange(0, 4).Draw(t, "lop") {
+				case 4:
+					// the field once more under other capitalisations (and without the original one):
+					// whatever a parser makes of that, it has to make the same of it every time
+					if k := strings.IndexByte(lines[p], ':'); k > 0 && lines[p][0] != ' ' && lines[p][0] != '\t' && lines[p][0] != '#' {
+						name, rest := lines[p][:k], lines[p][k:]
+						if !strings.HasSuffix(rest, "\n") {
+							rest += "\n"
+						}
+						alt := []string{strings.ToLower(name) + rest, strings.ToUpper(name) + strings.Replace(rest, ": ", ": other", 1)}
+						if rapid.Bool().Draw(t, "keepOrig") {
+							alt = append(alt, lines[p])
+						}
+						lines = append(lines[:p], append(alt, lines[p+1:]...)...)
+					}
 				case 0:
 					lines = append(lines[:p], lines[p+1:]...)
 				case 1:
@@ -299,7 +313,7 @@ func genParserInput(t *rapid.T, ep string) ParserInput {
 
 var specC18Total = Register(&Spec[ParserInput]{
 	Prop: "C18", Name: "total",
-	Rule: "for each of 13 parser entry points (version.Parse; dependency.Parse / ParseArch / ParseArchitectures; ParagraphReader.All; ParseDsc, ParseChanges, ParseControl, ParseBinaryIndex, ParseSourceIndex, Unmarshal(&deb.Control); changelog.Parse / ParseOne) inputs from that parser's own grammar generator (4/20), line- and byte-level mutations and truncations of them (14/20), raw bytes (1/21), a valid input repeated up to 64 KiB (1/21), and inputs whose total length or last-line length is exactly 4096*k-1, 4096*k or 4096*k+1 with and without a final newline (1/21). Oracle: the call returns within 60 s without panicking; when it returns an error no pointer/slice/map result is non-nil and non-empty and a struct result (version.Parse) is the zero value; a second call - made after 0..2 other generated inputs (often failing ones) went through the same entry point - gives a deeply equal value and the same error-ness. Non-trivial: grammar-derived input (valid, mutated or big); distinct by (entry point, bytes).",
+	Rule: "for each of 13 parser entry points (version.Parse; dependency.Parse / ParseArch / ParseArchitectures; ParagraphReader.All; ParseDsc, ParseChanges, ParseControl, ParseBinaryIndex, ParseSourceIndex, Unmarshal(&deb.Control); changelog.Parse / ParseOne) inputs from that parser's own grammar generator (4/20), line- and byte-level mutations (delete, duplicate, join, swap lines; one field repeated under lower- and upper-case spellings of its name) and truncations of them (14/20), raw bytes (1/21), a valid input repeated up to 64 KiB (1/21), and inputs whose total length or last-line length is exactly 4096*k-1, 4096*k or 4096*k+1 with and without a final newline (1/21). Oracle: the call returns within 60 s without panicking; when it returns an error no pointer/slice/map result is non-nil and non-empty and a struct result (version.Parse) is the zero value; a second call - made after 0..2 other generated inputs (often failing ones) went through the same entry point - gives a deeply equal value and the same error-ness. Non-trivial: grammar-derived input (valid, mutated or big); distinct by (entry point, bytes).",
 	Check: checkParserInput,
 })
 
